@@ -2,10 +2,11 @@ import Pycoin.Driver.C08
 import Pycoin.Model.ParseText
 import Pycoin.Model.Hmac
 import Pycoin.Model.Curve
+import Pycoin.Model.RealKeyEnv
 /-!
 C18 ops: `c18parse <net> <entry> <texthex>` evaluates one `ParseAPI` entry point and prints the object that came back
-together with its text forms.  `realKeyEnv` is driver glue over the C02 curve model (`points_for_x`, `contains_point`) with a Jacobian ladder for
-`se·G` over the generated generator parameters (used only to evaluate the model; the theorems of `Props/C18.lean` are generic in `KeyEnv`).
+together with its text forms.  `realKeyEnv` (`Model/RealKeyEnv.lean`) is the C02 curve model (`raw_mul`, `points_for_x`, `contains_point`) over the generated generator
+parameters; `Proofs/RealKeyEnv.lean: real_key_laws` proves `KeyLaws realKeyEnv`, which the `_real` theorems of `Props/C18.lean` instantiate.
 -/
 namespace Pycoin.Driver.C18
 open Pycoin.Addr Pycoin.Driver Pycoin.Gen.Networks
@@ -78,33 +79,11 @@ def ecMul (k : Nat) (p : Option (Nat × Nat)) : Option (Nat × Nat) := Id.run do
     let zi2 := zi * zi % P
     return some (x * zi2 % P, y * (zi2 * zi % P) % P)
 
-/-- the curve every network's key classes use (`Gen/Networks.generatorShared`), as the C02 model's parameters -/
-def curve : Curve.CurveParams :=
-  { p := genP, a := genA, b := genB, gx := genGx, gy := genGy, n := genOrder }
-
-/-- `Generator._powers`, built once -/
-def powersTable : List Curve.Pt := match Curve.powers curve with | .ok t => t | .error _ => []
-
-def electrumLoop (orig : Bytes) : Nat → Bytes → Bytes
-  | 0, b => b
-  | n + 1, b => electrumLoop orig n (Hash.sha256 (b ++ orig))
-
-/-- `KeyEnv` over the C02 curve model (`Model/Curve.lean`): `raw_mul` with the generator's table, `points_for_x`,
-`contains_point` -/
-def realKeyEnv : KeyEnv where
-  p := genP
-  order := genOrder
-  -- Jacobian ladder for speed (≈10× the affine table walk of the C02 model); op `c18mulg` cross-checks it against
-  -- `Curve.rawMulLoop`, and every key op compares the resulting public pair with the implementation
-  mulG se := match ecMul se (some (genGx, genGy)) with
-    | some (x, y) => ((x : Int), (y : Int))
-    | none => (0, 0)
-  pointsForX x := match Curve.pointsForX curve x with
-    | .ok (some a, some b) => some (a, b)
-    | _ => none
-  containsPoint x y := Curve.containsXY curve x y
-  hmacSha512 := Hash.hmacSha512
-  electrumStretch hex := let o := hex.toUTF8.toList; electrumLoop o 100000 o
+/-- the Jacobian ladder for `se·G` (≈10× faster than the affine table walk of the C02 model); op `c18mulg` cross-checks it
+against `realKeyEnv.mulG` (= `Curve.rawMul`, `Proofs/RealKeyEnv.lean`) and the implementation -/
+def fastMulG (se : Nat) : Pt := match ecMul se (some (genGx, genGy)) with
+  | some (x, y) => ((x : Int), (y : Int))
+  | none => (0, 0)
 
 /-- `realEnv` with the two decodings of `text` computed once (what `parseable_str.cache` does) -/
 def memoEnv (text : String) : Env :=
@@ -177,7 +156,7 @@ def handle : Handler := fun op args =>
   | "c18history", [text, steps] => history text steps
   | "c18mulg", [se] => do
     let se ← parseNat? se
-    let fast := realKeyEnv.mulG se
+    let fast := fastMulG se
     match Curve.rawMulLoop curve powersTable (fmod (se : Int) genOrder) none with
     | .ok (some pt) => some (if pt = fast then s!"ok {pt.1} {pt.2}" else "ok MISMATCH")
     | _ => some "ok infinity"
